@@ -456,9 +456,13 @@ def run_case(c):
         if m != exp:
             bad('corr', 'ev_mask_map', f'model {m} reader mask positions {real_positions}')
         # and the real get_trace agrees in outcome class at the two ends
-        for pos, t in ((0, -1), (n + 1, n)):
-            if (m[pos][0] == 'val') != (tr_out[pos][0] == 'val'):
-                bad('corr', f'get_trace({t}) outcome', f'model {m[pos]} implementation {tr_out[pos][0]}')
+        # ordinal n: model and implementation must both refuse; ordinal -1: get_trace checks the ordinal against the trace
+        # count BEFORE the mask lookup (theorem C08_get_trace_ordinal_out_of_range), so it must refuse whatever numpy's
+        # negative indexing of the mask would give
+        if (m[n + 1][0] == 'val') != (tr_out[n + 1][0] == 'val'):
+            bad('corr', f'get_trace({n}) outcome', f'model {m[n + 1]} implementation {tr_out[n + 1][0]}')
+        if tr_out[0][0] == 'val':
+            bad('oracle', 'get_trace(-1) outcome', 'a negative ordinal returned a trace instead of raising IndexError')
     want(f'ev_mask_map {S} {bs0} (-1) {n + 1}', cb_mask)
     # plane-set buffers filled by the REAL unstructured_io_thread_func
     with segyio.open(sgy, ignore_geometry=True) as f:
